@@ -241,6 +241,13 @@ class Model:
         for k, t in list(self.types.items()):
             for i in t.get('impls') or []:
                 cands.add(i)
+        # pointers to the AST / checker / interpreter structs (atoms of the wf predicate)
+        for k, t in list(self.types.items()):
+            if t['kind'] == 'pointer':
+                e = self.types.get(t['elem'])
+                if e and e['kind'] == 'named' and self.kind(t['elem']) == 'struct' and \
+                        any(e.get('pkg', '').endswith(sfx) for sfx in ('/internal/parser', '/internal/analysis', '/internal/interpreter')):
+                    cands.add(k)
         cands = sorted(c for c in cands if self.kind(c) != 'interface')
         self.any_types = cands
         self.any_index = {c: i for i, c in enumerate(cands)}
